@@ -48,15 +48,25 @@ func gen(seed uint64, n int, outDir, corpusDir string) {
 	var cases []Case
 	distinct := map[string]bool{}
 	seenHit := map[string]int{}
+	ucases := 0
 	add := func(c Case) {
-		c.Obs = Obs{}
-		observe(&c)
+		if !c.observed {
+			c.Obs = Obs{}
+			observe(&c)
+		}
 		classify(&c, res)
-		for _, h := range oracle(&c, fx) {
+		for _, h := range oracleAny(&c, fx) {
 			seenHit[h.What]++
 			if seenHit[h.What] <= 3 { // keep the replay files small: three witnesses per class
 				res.OracleHits = append(res.OracleHits, h)
 			}
+		}
+		if c.Mode == "voter" || c.Mode == "detect" { // consensus-side runs: oracle only, no model case
+			ucases++
+			if len(res.Samples) < 8 && ucases <= 2 {
+				res.Samples = append(res.Samples, c)
+			}
+			return
 		}
 		cases = append(cases, c)
 		if nontrivial(&c) {
@@ -68,8 +78,13 @@ func gen(seed uint64, n int, outDir, corpusDir string) {
 		res.Count("corpus")
 	}
 	for len(cases) < n {
-		add(genCase(r))
+		c, extra := genCase(r)
+		for _, x := range extra {
+			add(x)
+		}
+		add(c)
 	}
+	res.Extra["consensus_side_runs"] = ucases
 	var sb strings.Builder
 	sb.WriteString("From VF.C05 Require Import Model.\nLocal Open Scope Z_scope.\nDefinition cases : list case := [\n")
 	for i := range cases {
@@ -85,7 +100,7 @@ func gen(seed uint64, n int, outDir, corpusDir string) {
 	for k, v := range seenHit {
 		res.Distribution["oracle:"+k] = v
 	}
-	res.Rule = "worlds = random protocol parameters (penalty fraction 0..100, look-back 1..40), 1-6 BLS/ECDSA key pairs, 1-3 look-back validator sets on a sparse header chain (sometimes with the needed header missing), a current ledger with delegations and withdraw-queue entries at the penalty boundaries; evidences assembled from the signatures of simulated honest votes (same vote twice, prevote+precommit, two next-index votes, certificate pairs), real equivocations, forged / foreign / wrong-payload / undecodable signatures, wrong index, wrong round (past, expired, future), unknown types, repeated signers; each case runs one of: block builder (slashing) followed by the validator replay of the produced slash data, validator replay of arbitrary slash data, doPenalize with an arbitrary amount; non-trivial = at least one evidence reaches signature verification or a penalty is computed; distinct by full input"
+	res.Rule = "worlds = random protocol parameters (penalty fraction 0..150, look-back 1..40), 1-6 BLS/ECDSA key pairs, 1-3 look-back validator sets on a sparse header chain (neighbouring heights point at other sets, needed headers sometimes missing), a current ledger with delegations and withdraw-queue entries at the penalty boundaries (a share of them outside the C08 invariant); evidences assembled from the votes REAL honest Voter runs sent on the same world (prevote/precommit/certificate/next-index, quorum before or after the precommit step) and from simulated ones: the same vote twice, prevote+precommit, the two next-index votes, any multiset; real equivocations; forged / foreign / wrong-round / wrong-index / wrong-hash / undecodable signatures; wrong and out-of-range signer index; past, expired and future rounds; unknown types; the same evidence or signer repeated; each model case runs one of: block builder (slashing) followed by the validator's replay of the produced slash data on an identical state, validator replay of arbitrary slash data, doPenalize with an arbitrary amount; consensus-side runs (oracle only, not counted as cases): honest voter runs and honest double-vote detector runs; non-trivial = at least one evidence reaches signer lookup or a penalty is computed; distinct by full input"
 	for i := range cases {
 		c := cases[i]
 		res.CaseDescs = append(res.CaseDescs, c)
@@ -118,7 +133,7 @@ func replay(file string) {
 	observe(&c)
 	ob, _ := json.Marshal(c.Obs)
 	fmt.Printf("observed: %s\n", ob)
-	hits := oracle(&c, probeFixes())
+	hits := oracleAny(&c, probeFixes())
 	for _, x := range hits {
 		fmt.Printf("ORACLE VIOLATION: %s: %s\n", x.What, x.Detail)
 	}
@@ -154,6 +169,16 @@ func mkCorpus(dir string) {
 	c.Vals[0].Token, c.Vals[0].Stake = "14000000000000000000", "14"
 	c.Queue = []WRec{{Val: 0, D: 0, Finished: 0, Final: "100000000000000000"}, {Val: 0, D: 1, Finished: 0, Final: "50000000000000000"}, {Val: 0, D: 0, Finished: 1, Final: "7"}}
 	put("r1_real_equivocation.json", "two different prevotes: accepted once, 2% taken from withdrawals, self stake and delegation", c)
+	c = baseWorld()
+	c.Headers = append(c.Headers, Hdr{Num: 0, Set: 0})
+	c.Mode = "voter"
+	c.VRun = &VoterRun{Key: 0, Index: 1, A: 7, B: 8, Quorum: 2, Cert: true}
+	put("v1_honest_run.json", "real honest voter: prevote 7, next-index for the empty hash, then (quorum for 8) precommit 8, next-index 8, certificate 8", c)
+	c = baseWorld()
+	c.Headers = append(c.Headers, Hdr{Num: 0, Set: 0})
+	c.Mode = "detect"
+	c.DRun = &DetectRun{Observer: 1, Signer: 0, Index: 1, Msgs: []VoteMsg{{2, 7}, {3, 8}, {4, 0}, {4, 8}, {2, 7}, {2, 9}, {2, 5}, {5, 1}, {5, 2}}}
+	put("d1_detector.json", "honest detector: evidence for the two prevotes (7, 9) and the two certificate votes (1, 2) only", c)
 }
 
 func main() {
